@@ -589,6 +589,18 @@ def _trim_start_matches(s, p):
     return s
 
 
+def m_ends_with_char(ex, args, callee):
+    s, ch = dv(args[0]), dv(args[1])
+    if isinstance(s, str) and isinstance(ch, str): return s.endswith(ch)
+    if isinstance(s, SB) and isinstance(ch, (str, int)):
+        code = ord(ch) if isinstance(ch, str) else ch
+        if code >= 0x80: raise Unsupported('ends_with a multi-byte char on bytes')
+        if not s.bs: return False
+        last = s.bs[-1]
+        return (last == code) if z3.is_expr(last) else (last == code)
+    raise Unsupported(f'{callee}: string content is not concrete')
+
+
 def need_str(f):
     def g(ex, args, callee):
         s = dv(args[0])
@@ -701,7 +713,14 @@ def m_slice_index(ex, args, callee):
 
 def m_call_once(ex, args, callee):
     a = args[1]
-    return ex.call_closure(args[0], [c.v for c in a.items] if isinstance(a, Tup) else [a])
+    clo = args[0]
+    if dv(clo) is None:
+        # a closure without captures is zero-sized: MIR never assigns it, its type names it
+        cm = re.match(r'^<&?\{closure@(.*?)\} as ', callee)
+        if cm:
+            from .core import Closure
+            clo = Closure(ex.closure_by_span(cm.group(1)), [])
+    return ex.call_closure(clo, [c.v for c in a.items] if isinstance(a, Tup) else [a])
 
 
 def m_int_from(ex, args, callee):
@@ -787,7 +806,7 @@ BASE_MODELS = [
     (r'Result::<.*>::is_err$', lambda ex, a, c: dv(a[0]).discr == 1),
     (r'Result::<.*>::err$', lambda ex, a, c: ex.some(ex.payload(dv(a[0]))) if dv(a[0]).discr == 1 else ex.none()),
     (r' as Try>::branch$', m_try_branch), (r' as FromResidual<.*>>::from_residual$', m_from_residual),
-    (r'str>::starts_with::<(char|&str)>$', need_str(lambda s, c: s.startswith(c))), (r'str>::ends_with::<char>$', need_str(lambda s, c: s.endswith(c))),
+    (r'str>::starts_with::<(char|&str)>$', need_str(lambda s, c: s.startswith(c))), (r'str>::ends_with::<char>$', lambda ex, a, c: m_ends_with_char(ex, a, c)),
     (r'str>::find::<char>$', m_find_char), (r'str>::to_uppercase$', need_str(lambda s: s.upper())),
     (r'str>::eq_ignore_ascii_case$', lambda ex, a, c: m_eq_ignore_ascii_case_concrete(ex, a, c)),
     (r'^(std::string::)?String::new$', lambda ex, a, c: ''),
